@@ -24,24 +24,24 @@ Init == StoreInit /\ hist = << >> /\ lastw = 0
 Step ==
   \/ \E h \in Handles, s \in Shapes, seed \in Seeds :
         New(h, s[1], s[2], seed) /\ lastw' = h /\ hist' = Append(hist, Rec("new", [h |-> h, m |-> s[1], n |-> s[2], seed |-> seed]))
-  \/ \E x \in H2, r0 \in 0 .. 1, c0 \in {0, 64}, m \in RowDims, n \in ColDims :
+  \/ \E x \in H2, r0 \in 0 .. 1, c0 \in {0, 64}, m \in {1, 2, 3, 64}, n \in {1, 2, 3, 63, 64, 65} :
         Win(x[1], x[2], r0, c0, m, n) /\ lastw' = 0
         /\ hist' = Append(hist, Rec("win", [h |-> x[1], p |-> x[2], r0 |-> r0, c0 |-> c0, m |-> m, n |-> n]))
   \/ \E h \in Handles : Free(h) /\ lastw' = 0 /\ hist' = Append(hist, Rec("free", [h |-> h]))
   \/ \E x \in H3 : Add3(x[1], x[2], x[3]) /\ lastw' = x[1] /\ hist' = Append(hist, Rec("add", [c |-> x[1], a |-> x[2], b |-> x[3]]))
-  \/ \E x \in H2 : Copy2(x[1], x[2]) /\ lastw' = x[1] /\ hist' = Append(hist, Rec("copy", [d |-> x[1], a |-> x[2]]))
+  \/ \E x \in H2 : x[1] # x[2] /\ Copy2(x[1], x[2]) /\ lastw' = x[1] /\ hist' = Append(hist, Rec("copy", [d |-> x[1], a |-> x[2]]))
   \/ \E x \in H3, acc \in BOOLEAN :
         Mul3(x[1], x[2], x[3], acc) /\ lastw' = x[1]
         /\ hist' = Append(hist, Rec(IF acc THEN "addmul" ELSE "mul", [c |-> x[1], a |-> x[2], b |-> x[3]]))
   \/ \E x \in H2 : Transpose2(x[1], x[2]) /\ lastw' = x[1] /\ hist' = Append(hist, Rec("transpose", [d |-> x[1], a |-> x[2]]))
-  \/ \E x \in H2, lr \in 0 .. 1, lc \in {0, 1, 64}, hr \in RowDims, hc \in ColDims :
+  \/ \E x \in H2, lr \in 0 .. 1, lc \in {0, 1, 64}, hr \in {1, 2, 3}, hc \in {1, 64, 65, 128} :
         Submatrix2(x[1], x[2], lr, lc, hr, hc) /\ lastw' = x[1]
         /\ hist' = Append(hist, Rec("submatrix", [d |-> x[1], a |-> x[2], lr |-> lr, lc |-> lc, hr |-> hr, hc |-> hc]))
   \/ \E x \in H3 : Concat3(x[1], x[2], x[3]) /\ lastw' = x[1] /\ hist' = Append(hist, Rec("concat", [d |-> x[1], a |-> x[2], b |-> x[3]]))
   \/ \E x \in H3 : Stack3(x[1], x[2], x[3]) /\ lastw' = x[1] /\ hist' = Append(hist, Rec("stack", [d |-> x[1], a |-> x[2], b |-> x[3]]))
   \/ \E h \in Handles, v \in 0 .. 1 : SetUi(h, v) /\ lastw' = h /\ hist' = Append(hist, Rec("set_ui", [h |-> h, v |-> v]))
   \/ \E h \in Handles, i \in 0 .. 2, j \in 0 .. 2 : i < j /\ RowSwap2(h, i, j) /\ lastw' = h /\ hist' = Append(hist, Rec("row_swap", [h |-> h, i |-> i, j |-> j]))
-  \/ \E h \in Handles, i \in {0, 62, 63}, j \in {0, 1, 63, 64, 129} : i # j /\ ColSwap2(h, i, j) /\ lastw' = h
+  \/ \E h \in Handles, i \in {0, 63}, j \in {1, 64, 129} : ColSwap2(h, i, j) /\ lastw' = h
         /\ hist' = Append(hist, Rec("col_swap", [h |-> h, i |-> i, j |-> j]))
   \/ \E h \in Handles, i \in 0 .. 2, j \in 0 .. 2 : RowAdd2(h, i, j) /\ lastw' = h /\ hist' = Append(hist, Rec("row_add", [h |-> h, src |-> i, dst |-> j]))
   \/ \E h \in Handles : Echelonize(h) /\ lastw' = h /\ hist' = Append(hist, Rec("echelonize", [h |-> h]))
